@@ -144,7 +144,8 @@ mut("C10", "chunked-reset-before-discard-again", CH, "\t\t\t// Discard response 
 mut("C10", "isapperror-forgets-nomem", "common/datatypes.go", "\t\terr == ErrNoMem ||\n", "", "R10.3")
 mut("C10", "locked-gete-swallows-panic", LOCKED, "\t\t\tif lock != nil {\n\t\t\t\tlock.Unlock()\n\t\t\t}\n\n\t\t\tpanic(r)\n\t\t}\n\t}()\n\n\tfor idx, key := range req.Keys {\n\t\t// Acquire read lock (true == read)\n\t\tlock = l.getlock(key, true)\n\t\tlock.Lock()\n\n\t\t// The last request will have these set to complete the interaction\n\t\tnoopOpaque := uint32(0)\n\t\tnoopEnd := false\n\t\tl.res.mute = true\n\t\tif idx == len(req.Keys)-1 {\n\t\t\tnoopOpaque = req.NoopOpaque\n\t\t\tnoopEnd = req.NoopEnd\n\t\t\tl.res.mute = false\n\t\t}\n\n\t\tsubreq := common.GetRequest{\n\t\t\tKeys:       [][]byte{key},\n\t\t\tOpaques:    []uint32{req.Opaques[idx]},\n\t\t\tQuiet:      []bool{req.Quiet[idx]},\n\t\t\tNoopOpaque: noopOpaque,\n\t\t\tNoopEnd:    noopEnd,\n\t\t}\n\n\t\t// Make the actual request\n\t\tret = l.wrapped.GetE(subreq)",
     "\t\t\tif lock != nil {\n\t\t\t\tlock.Unlock()\n\t\t\t}\n\t\t}\n\t}()\n\n\tfor idx, key := range req.Keys {\n\t\t// Acquire read lock (true == read)\n\t\tlock = l.getlock(key, true)\n\t\tlock.Lock()\n\n\t\t// The last request will have these set to complete the interaction\n\t\tnoopOpaque := uint32(0)\n\t\tnoopEnd := false\n\t\tl.res.mute = true\n\t\tif idx == len(req.Keys)-1 {\n\t\t\tnoopOpaque = req.NoopOpaque\n\t\t\tnoopEnd = req.NoopEnd\n\t\t\tl.res.mute = false\n\t\t}\n\n\t\tsubreq := common.GetRequest{\n\t\t\tKeys:       [][]byte{key},\n\t\t\tOpaques:    []uint32{req.Opaques[idx]},\n\t\t\tQuiet:      []bool{req.Quiet[idx]},\n\t\t\tNoopOpaque: noopOpaque,\n\t\t\tNoopEnd:    noopEnd,\n\t\t}\n\n\t\t// Make the actual request\n\t\tret = l.wrapped.GetE(subreq)", "R10.4")
-var("C10", "reply-loop-leaves-on-anything-but-miss", CH, "\t\t\t\tlastErr = err\n\t\t\t\tif !common.IsAppError(err) {\n\t\t\t\t\t// the connection is broken, there is nothing left to read\n\t\t\t\t\tbreak\n\t\t\t\t}", "\t\t\t\tlastErr = err\n\t\t\t\tbreak", nth=1)
+mut("C10", "reply-loop-leaves-on-anything-but-miss", CH, "\t\t\t\tlastErr = err\n\t\t\t\tif !common.IsAppError(err) {\n\t\t\t\t\t// the connection is broken, there is nothing left to read\n\t\t\t\t\tbreak\n\t\t\t\t}", "\t\t\t\tlastErr = err\n\t\t\t\tbreak", "R10.16",
+    "was kept as a silent variant of R10.2 (an I/O error still leaves the loop); with R10.16 it is a break: an application status on one chunk reply leaves the other replies unread", nth=1)
 
 # ---------------------------------------------------------------- C11
 mut("C11", "length-guard-removed", BP, "\tif reqHeader.TotalBodyLength < uint32(reqHeader.ExtraLength)+uint32(reqHeader.KeyLength) {\n\t\treturn common.SetRequest{}, reqType, start, common.ErrInvalidArgs\n\t}\n", "", "R11.1")
@@ -341,6 +342,24 @@ mut("C08", "binresp-error-header-declares-body", "protocol/binprot/respond.go", 
 mut("C08", "l1l2-get-l1-hit-not-forwarded", "orcas/l1l2.go", "\t\t\t\t\tmetrics.IncCounter(MetricCmdGetHitsL1)\n\t\t\t\t\tl.res.Get(res)", "\t\t\t\t\tmetrics.IncCounter(MetricCmdGetHitsL1)\n\t\t\t\t\t_ = res", "R8.16", nth=0)
 mut("C18", "inccounterby-load-then-store", MC, "\tatomic.AddUint64(&counters[id], amount)\n", "\tatomic.StoreUint64(&counters[id], atomic.LoadUint64(&counters[id])+amount)\n", "R18.13", "seed C18K: lost updates")
 mut("C18", "power-of-4-table-digits-transposed", HI, "149, 158, 167, 176, 185, 194", "149, 158, 167, 176, 158, 194", "R18.14", "seed C18M")
+
+# ---------------------------------------------------------------- round 7 rules
+mut("C19", "backfill-key-const", "orcas/backfill.go", "Key: res.Key, Data: res.Data, Exptime: 1500", "Key: req.Keys[0], Data: res.Data, Exptime: 1500", "R19.10")
+mut("C10", "append-loop-break-on-miss", "handlers/memcached/chunked/handler.go", "\t\t\t\t\tmiss = true\n\t\t\t\t}\n\t\t\t\tcontinue\n\t\t\t}\n\n\t\t\tlastErr = err", "\t\t\t\t\tmiss = true\n\t\t\t\t}\n\t\t\t\tbreak\n\t\t\t}\n\n\t\t\tlastErr = err", "R10.16")
+mut("C04", "append-loop-break-on-miss", "handlers/memcached/chunked/handler.go", "\t\t\t\t\tmiss = true\n\t\t\t\t}\n\t\t\t\tcontinue\n\t\t\t}\n\n\t\t\tlastErr = err", "\t\t\t\t\tmiss = true\n\t\t\t\t}\n\t\t\t\tbreak\n\t\t\t}\n\n\t\t\tlastErr = err", "R4.19")
+mut("C14", "chunked-defer-put-before-check", "handlers/memcached/chunked/localComm.go", "\tresHeader, err := binprot.ReadResponseHeader(rw)\n\tif err != nil {\n\t\treturn false, err\n\t}\n\tdefer binprot.PutResponseHeader(resHeader)\n", "\tresHeader, err := binprot.ReadResponseHeader(rw)\n\tdefer binprot.PutResponseHeader(resHeader)\n\tif err != nil {\n\t\treturn false, err\n\t}\n", "R14.13")
+mut("C10", "chunked-defer-put-before-check", "handlers/memcached/chunked/localComm.go", "\tresHeader, err := binprot.ReadResponseHeader(rw)\n\tif err != nil {\n\t\treturn false, err\n\t}\n\tdefer binprot.PutResponseHeader(resHeader)\n", "\tresHeader, err := binprot.ReadResponseHeader(rw)\n\tdefer binprot.PutResponseHeader(resHeader)\n\tif err != nil {\n\t\treturn false, err\n\t}\n", "R10.19")
+mut("C11", "chunked-defer-put-before-check", "handlers/memcached/chunked/localComm.go", "\tresHeader, err := binprot.ReadResponseHeader(rw)\n\tif err != nil {\n\t\treturn false, err\n\t}\n\tdefer binprot.PutResponseHeader(resHeader)\n", "\tresHeader, err := binprot.ReadResponseHeader(rw)\n\tdefer binprot.PutResponseHeader(resHeader)\n\tif err != nil {\n\t\treturn false, err\n\t}\n", "R11.9")
+mut("C14", "error-header-defer-and-put", "protocol/binprot/respond.go", "func writeErrorResponseHeader(w *bufio.Writer, opcode uint8, status uint16, opaque uint32) error {\n\theader := resHeadPool.Get().(*ResponseHeader)\n", "func writeErrorResponseHeader(w *bufio.Writer, opcode uint8, status uint16, opaque uint32) error {\n\theader := resHeadPool.Get().(*ResponseHeader)\n\tdefer resHeadPool.Put(header)\n", "R14.3")
+mut("C07", "error-header-defer-and-put", "protocol/binprot/respond.go", "func writeErrorResponseHeader(w *bufio.Writer, opcode uint8, status uint16, opaque uint32) error {\n\theader := resHeadPool.Get().(*ResponseHeader)\n", "func writeErrorResponseHeader(w *bufio.Writer, opcode uint8, status uint16, opaque uint32) error {\n\theader := resHeadPool.Get().(*ResponseHeader)\n\tdefer resHeadPool.Put(header)\n", "R7.13")
+mut("C17", "inmem-signed-compare", "handlers/inmem/inmem.go", "return e.exptime != 0 && e.exptime < uint32(time.Now().Unix())", "return e.exptime != 0 && int32(e.exptime) < int32(time.Now().Unix())", "R17.8")
+var("C17", "inmem-int64-diff", "handlers/inmem/inmem.go", "return e.exptime != 0 && e.exptime < uint32(time.Now().Unix())", "return e.exptime != 0 && int64(uint32(time.Now().Unix()))-int64(e.exptime) > 0", "a difference formed in 64 bits is exact")
+mut("C06", "reader-discards-extras-only", "handlers/memcached/batched/conn.go", "\t\t\t\t// Discard the message for non-get responses\n\t\t\t\tn, err := c.rw.Discard(int(resHeader.TotalBodyLength))", "\t\t\t\tn, err := c.rw.Discard(int(resHeader.ExtraLength))", "R6.15")
+mut("C06", "relay-signals-before-conn", "handlers/memcached/batched/relay.go", "\tr.addConn()\n\tfirstConnSetup <- struct{}{}\n", "\tfirstConnSetup <- struct{}{}\n\tr.addConn()\n", "R6.16")
+mut("C06", "relay-no-wait", "handlers/memcached/batched/relay.go", "\tgo r.monitor(firstConnSetup)\n\t<-firstConnSetup\n", "\tgo r.monitor(firstConnSetup)\n\tgo func() { <-firstConnSetup }()\n", "R6.16")
+mut("C13", "pooled-buffer-not-emptied", BC, "\tbuf := batcherPool.Get().(*bytes.Buffer)\n\tbuf.Reset()\n", "\tbuf := batcherPool.Get().(*bytes.Buffer)\n", "R13.16")
+mut("C06", "pooled-buffer-not-emptied", BC, "\tbuf := batcherPool.Get().(*bytes.Buffer)\n\tbuf.Reset()\n", "\tbuf := batcherPool.Get().(*bytes.Buffer)\n", "R6.14")
+var("C13", "batch-written-with-writeto", BC, "n, _ := c.rw.Write(buf.Bytes())", "n, _ := buf.WriteTo(c.rw)", "draining the buffer while writing is harmless as long as it is emptied when it is taken from the pool")
 
 for prop, ms in sorted(M.items()):
     json.dump(ms, open(os.path.join(ROOT, "rendlint", "mutants", prop + ".json"), "w"), indent=1)
